@@ -167,6 +167,37 @@ class Ctx:
         self.add_pc(term == feas[0])
         return feas[0]
 
+    def decide_by_model(self, term, cap=64):
+        """Concretise an Int term by enumerating its feasible values one solver model at a time
+        (complete for finite domains; EngineError beyond `cap` values)."""
+        excl = []
+        if self.pos < len(self.script):
+            kind, payload = self.script[self.pos]
+            if kind == 'm':
+                self.pos += 1
+                self.add_pc(term == payload)
+                return payload
+            if kind != 'mx':
+                raise EngineError(f'script desync: expected model value, got {kind}')
+            excl = list(payload)
+            del self.script[self.pos:]
+        if len(excl) >= cap:
+            raise EngineError('too many values for model enumeration')
+        cons = z3.And([term != e for e in excl]) if excl else z3.BoolVal(True)
+        r, m = self._check(cons, self.FEAS_TIMEOUT_MS)
+        if r != z3.sat:
+            raise PathEnd('infeasible')
+        val = m.eval(term, model_completion=True).as_long()
+        more = self.feasible(z3.And(cons, term != val))
+        if more:
+            if self.nofork:
+                raise NeedFork()
+            self.alts.append(self.script[:self.pos] + [('mx', excl + [val])])
+        self.script.append(('m', val))
+        self.pos += 1
+        self.add_pc(term == val)
+        return val
+
     def spec_record(self, ok=None):
         """Record / replay whether a speculative merge succeeded."""
         if ok is None:
